@@ -4,4 +4,5 @@
 using namespace simd;
 using intervals_t = ikos::interval_domain<z_number, varname_t>;
 using D = flat_boolean_numerical_domain<intervals_t>;
-SIM_REGISTER_DOMAIN(bool_intervals, D, "bool_intervals", CAP_BOOL | CAP_CORE)
+SIM_REGISTER_DOMAIN(bool_intervals, D, "bool_intervals",
+                    CAP_BOOL | CAP_CORE | CAP_BACKWARD)
